@@ -4,11 +4,10 @@ from dvc_data.callbacks import Tqdm
 class QueryingProgress(Tqdm):
     def __init__(self, iterable=None, total=None, name=None, phase="Querying"):
         msg_part = "cache in " + f"'{name}'" if name else "remote cache"
-        msg_fmt = "{phase} " + msg_part
 
-        self._estimating_msg = msg_fmt.format(phase="Estimating size of")
-        self._listing_msg = msg_fmt.format(phase="Querying")
-        self.desc = desc = msg_fmt.format(phase=phase)
+        self._estimating_msg = f"Estimating size of {msg_part}"
+        self._listing_msg = f"Querying {msg_part}"
+        self.desc = desc = f"{phase} {msg_part}"
         super().__init__(
             iterable=iterable,
             desc=desc,
